@@ -12,6 +12,7 @@ import (
 	"encoding/json"
 	"fmt"
 	"math/rand"
+	neturl "net/url"
 	"os"
 	"os/exec"
 	"path"
@@ -1084,6 +1085,106 @@ func gen(c *lib.Ctx, rng *rand.Rand) []c08case {
 		"/patch/", "/patch/x", "/patch/livesim2", "/patch/livesim2/testpic_2s/Manifest.mpp?publishTime=9999-99-99T00:00:00Z",
 	} {
 		get("patch", u, "", "", nil)
+	}
+	// strings that one integer parser accepts and another rejects, for every numeric field of every
+	// endpoint: blanks, tabs, newlines, '+' (a blank in a query), signs, unicode digits, NUL, very long
+	// digit strings, hex/octal/binary/underscore/exponent forms
+	{
+		odd := []string{"%2030", "30%20", "%0930", "30%09", "30%0A", "%0D%0A30", "30+", "+30", "%2B30", "-30", "--30", "%2B-30", "-%2B30", "%D9%A3%D9%A0", "%EF%BC%93%EF%BC%90",
+			"30%00", "%0030", "%00", "%20", "%09", "+", "000000000000000000000000000030", strings.Repeat("9", 400), "0x10", "0X1F", "0b11", "0o17", "010", "1_000", "_30", "30_",
+			"1e3", "1E3", "30.0", "30.", "30,", "3 0", "3%C2%A00", "00", "-0", "%2B0", "0", "1", "١"}
+		dec := func(v string) (string, bool) {
+			d, err := neturl.QueryUnescape(v)
+			return d, err == nil
+		}
+		printable := func(v string) bool {
+			for _, r := range v {
+				if r < 32 || r > 126 {
+					return false
+				}
+			}
+			return true
+		}
+		// /urlgen/create: the three integers the handler checks, and the fields it copies into the URL
+		for fi, f := range []string{"tsbd", "ltgt", "patch-ttl", "periods", "snr", "mup", "spd", "start", "stop", "startrel", "stoprel", "timesubsdur", "timesubsreg", "scte35", "ato", "chunkdur"} {
+			for vi, v := range odd {
+				if !c.Thorough() && fi >= 3 && (fi+vi)%5 != 0 {
+					continue
+				}
+				d, ok := dec(v)
+				exp, why := "", ""
+				var m *modelReq
+				if fi < 3 && ok {
+					if d != "" && !isGoInt(d) {
+						exp, why = "4xx", f+" is no integer"
+					}
+					if printable(d) {
+						m = &modelReq{Kind: "create"}
+						switch f {
+						case "tsbd":
+							m.A = d
+						case "ltgt":
+							m.B = d
+						default:
+							m.C = d
+						}
+					}
+				}
+				if exp == "" {
+					exp, why = "deliberate", "urlgen field "+f
+				}
+				add(c08case{Group: "int-forms", Expect: exp, Why: why, Model: m, Req: c08req{Kind: "router", Method: "GET", URL: "/urlgen/create?asset=testpic_2s&mpd=Manifest.mpd&stl=nr&" + f + "=" + v}})
+			}
+		}
+		// the nowMS query of /livesim2 and /patch, ids and numeric fields of the API, other endpoints with a stray numeric query
+		for vi, v := range odd {
+			d, ok := dec(v)
+			exp, why := "deliberate", "nowMS form"
+			if ok && d != "" && !isGoInt(d) {
+				exp, why = "4xx", "nowMS is no integer"
+			}
+			add(c08case{Group: "int-forms", Expect: exp, Why: why, Req: c08req{Kind: "live", Method: "GET", URL: "/livesim2/testpic_2s/Manifest.mpd?nowMS=" + v}})
+			add(c08case{Group: "int-forms", Expect: "deliberate", Why: "nowMS form", Req: c08req{Kind: "router", Method: "GET", URL: "/patch/livesim2/segtimeline_1/patch_60/testpic_2s/Manifest.mpp?publishTime=1970-01-01T00:03:20Z&nowMS=" + v}})
+			if c.Thorough() || vi%3 == 0 {
+				for _, u := range []string{"/api/cmaf-ingests/" + v, "/api/cmaf-ingests/" + v + "/step", "/reqcount?n=" + v, "/assets?n=" + v, "/vod/testpic_2s/V300/" + v + ".m4s", "/healthz?x=" + v} {
+					add(c08case{Group: "int-forms", Expect: "deliberate", Why: "numeric form on another endpoint", Req: c08req{Kind: "router", Method: "GET", URL: u}})
+				}
+				jb, _ := json.Marshal(d)
+				for _, fld := range []string{"testNowMS", "duration"} {
+					for _, jv := range []string{string(jb), d} {
+						body := `{"destRoot":"http://127.0.0.1:9","destName":"d","livesimURL":"/livesim2/testpic_2s/Manifest.mpd","testNowMS":100000,"duration":2,"` + fld + `":` + jv + `}`
+						add(c08case{Group: "int-forms", Expect: "deliberate", Why: "API numeric field " + fld, Req: c08req{Kind: "router", Method: "POST", URL: "/api/cmaf-ingests", Body: []byte(body), Hdr: map[string]string{"Content-Type": "application/json"}}})
+					}
+				}
+			}
+		}
+		// every integer URL option of /livesim2 with these forms
+		for ki, k := range intKeys {
+			for vi, v := range odd {
+				if !c.Thorough() && (ki+vi)%4 != 0 {
+					continue
+				}
+				d, ok := dec(v)
+				seen := strings.ReplaceAll(d, "+", " ") // what processURLCfg makes of the decoded path
+				tail := "testpic_2s/Manifest.mpd"
+				if (ki+vi)%3 == 0 {
+					tail = "testpic_2s/V300/45.m4s"
+				}
+				if ok && printable(d) && safePath.MatchString(d) {
+					exp, why := "", ""
+					if !isGoInt(seen) {
+						exp, why = "4xx", k+"_"+d+": not an integer"
+					}
+					add(liveCase("int-forms", "/livesim2/"+k+"_"+d+"/"+tail, "100000", exp, why))
+				} else {
+					exp, why := "deliberate", "integer form in the path"
+					if ok && !isGoInt(seen) && !strings.ContainsAny(d, "?#") {
+						exp, why = "4xx", k+"_"+v+": not an integer"
+					}
+					add(c08case{Group: "int-forms", Expect: exp, Why: why, Req: c08req{Kind: "live", Method: "GET", URL: "/livesim2/" + k + "_" + v + "/" + tail + "?nowMS=100000"}})
+				}
+			}
+		}
 	}
 	// the /patch route with every kind of path and configuration family the /livesim2 route gets
 	// (only .mpp paths are patch requests; everything else must be refused, not forwarded)
